@@ -1,5 +1,6 @@
 """C16 — the field-map tokeniser and sequential consumption lose and reorder nothing."""
 from .common import Report
+from . import accept
 from . import tokeniser, grules
 
 LEVEL = "other"
@@ -21,4 +22,5 @@ def run(F, tier):
     r = tokeniser.k4(rep, F)
     rep.sample({"K4_push_counts_over_paths": r.get("paths")})
     rep.sample({"K2_keep_list": rep.rules.get("K2", {}).get("keep_list")})
+    accept.u6(rep, F, "tokeniser")
     return rep
